@@ -9,7 +9,7 @@ def Good (s : Style) : Prop := s.tickN ≥ 2 ∧ s.progWidths.length ≥ 2 ∧ s
 theorem default_good : Good {} := ⟨by decide, by decide, by decide⟩
 
 /-- with both repairs every accepted builder call keeps the style renderable -/
-theorem build_good (s s' : Style) (op : BuildOp) (h : Good s) (hb : build { f12 := true, f13 := true } s op = some s') : Good s' := by
+theorem build_good (s s' : Style) (op : BuildOp) (h : Good s) (hb : build SFix.current s op = some s') : Good s' := by
   obtain ⟨h1, h2, h3⟩ := h
   cases op with
   | tickChars n =>
@@ -18,12 +18,12 @@ theorem build_good (s s' : Style) (op : BuildOp) (h : Good s) (hb : build { f12 
     · cases hb; exact ⟨by assumption, h2, h3⟩
     · cases hb
   | tickStrings n =>
-    simp only [build, if_true] at hb
+    simp only [build, SFix.current, if_true] at hb
     split at hb
     · cases hb; exact ⟨by assumption, h2, h3⟩
     · cases hb
   | progressChars ws =>
-    simp only [build] at hb
+    simp only [build, SFix.current] at hb
     split at hb
     · cases hb
     · rename_i hlen
@@ -32,22 +32,22 @@ theorem build_good (s s' : Style) (op : BuildOp) (h : Good s) (hb : build { f12 
       | cons w rest =>
         simp only [] at hb
         split at hb
-        · split at hb
-          · cases hb
-          · rename_i hz
+        · by_cases hz : w = 0
+          · simp [hz] at hb
+          · have hz' : (w == 0) = false := by simp [hz]
+            simp only [hz', Bool.and_false, Bool.false_eq_true, if_false] at hb
             cases hb
             refine ⟨h1, ?_, ?_⟩
             · show (w :: rest).length ≥ 2
               omega
-            · simp only [Bool.true_and, beq_iff_eq] at hz
-              show w ≥ 1
+            · show w ≥ 1
               omega
         · cases hb
 
-/-- **C14.** Any style accepted by the (repaired) builder renders for every tick count, bar width and
+/-- **C14.** Any style accepted by the builder as it is in the repository now renders for every tick count, bar width and
 finished flag without panicking. -/
 theorem C14_render_total (ops : List BuildOp) : ∀ (s s' : Style), Good s →
-    buildAll { f12 := true, f13 := true } s ops = some s' →
+    buildAll SFix.current s ops = some s' →
     ∀ tick barWidth finished, renderOk s' tick barWidth finished = true := by
   induction ops with
   | nil =>
@@ -63,6 +63,32 @@ theorem C14_render_total (ops : List BuildOp) : ∀ (s s' : Style), Good s →
     · rename_i s1 h1
       exact ih s1 s' (build_good s s1 op hg h1) hb
     · cases hb
+
+/-- **C14 (early rejection).** Fewer than two tick strings or progress characters, progress characters of
+unequal width and zero-width progress characters are rejected when the style is built. -/
+theorem C14_rejects_early (s : Style) :
+    (∀ n, n < 2 → build SFix.current s (.tickChars n) = none) ∧
+    (∀ n, n < 2 → build SFix.current s (.tickStrings n) = none) ∧
+    (∀ ws, ws.length < 2 → build SFix.current s (.progressChars ws) = none) ∧
+    (∀ w w' pre rest, w ≠ w' → build SFix.current s (.progressChars (w :: pre ++ w' :: rest)) = none) ∧
+    (∀ rest, build SFix.current s (.progressChars (0 :: rest)) = none) := by
+  refine ⟨?_, ?_, ?_, ?_, ?_⟩
+  · intro n hn; simp only [build]; split <;> first | omega | rfl
+  · intro n hn; simp only [build, SFix.current, if_true]; split <;> first | omega | rfl
+  · intro ws hw; simp only [build, hw, if_true]
+  · intro w w' pre rest hne
+    simp only [build]
+    split
+    · rfl
+    · have : (pre ++ w' :: rest).all (· == w) = false := by
+        simp only [List.all_eq_false]
+        exact ⟨w', by simp, by simp [Ne.symm hne]⟩
+      simp [this]
+  · intro rest
+    simp only [build, SFix.current]
+    split
+    · rfl
+    · split <;> simp
 
 /-- **The pinned builder accepts styles that panic in a draw** (candidates F12, F13). -/
 theorem C14_fails_unrepaired :
